@@ -105,6 +105,10 @@ class BoundedCtx:
                 packed = [(func, it, job_timeout) for it in chunk]
                 for it, res in zip(chunk, pool.imap(_call_with_timeout, packed,
                                                     chunksize=max(1, min(64, len(chunk) // (procs * 2))))):
+                    if isinstance(res, str) and res.startswith('TIMEOUT:'):
+                        # a busy machine can make a slow job miss its budget: confirm alone, with ten times the
+                        # budget, before the input is called non-terminating
+                        res = _call_with_timeout((func, it, job_timeout * 10))
                     yield it, res
                     if isinstance(res, str) and res.startswith(('TIMEOUT:', 'MEMORY:')):
                         runaway += 1
@@ -148,15 +152,21 @@ def _call_with_timeout(packed):
     except JobTimeout:
         return f'TIMEOUT: the real code did not finish within {seconds} s on this input (non-termination)'
     except MemoryError:
-        return 'MEMORY: the real code exhausted the 6 GiB worker memory limit on this input (unbounded allocation)'
+        return 'MEMORY: the real code exhausted the worker memory limit (6 GiB above its start) on this input (unbounded allocation)'
     finally:
         signal.setitimer(signal.ITIMER_REAL, 0)
 
 
 def _worker_init():
+    """Cap what a runaway job can allocate: 6 GiB on top of what the (forked) worker already maps."""
     import resource
     try:
-        resource.setrlimit(resource.RLIMIT_AS, (6 << 30, 6 << 30))
+        with open('/proc/self/statm') as f:
+            current = int(f.read().split()[0]) * resource.getpagesize()
+    except (OSError, ValueError):
+        current = 8 << 30
+    try:
+        resource.setrlimit(resource.RLIMIT_AS, (current + (6 << 30), current + (6 << 30)))
     except (ValueError, OSError):
         pass
 
@@ -230,6 +240,7 @@ def run_property(prop: str, tier: str, seed: int, repo: str, only: Optional[str]
     mod = find_module(prop)
     reg = getattr(mod, 'REG', None)
     timeout_ms = getattr(mod, 'TIMEOUT_MS', {}).get(tier, 30000 if tier == 'quick' else 120000)
+    smt._pool(min(16, os.cpu_count() or 4))      # fork the solver workers before anything large is built
     reports = []
     static_results = []
     crashed = []
@@ -238,20 +249,29 @@ def run_property(prop: str, tier: str, seed: int, repo: str, only: Optional[str]
 
     # ---- proof tier -------------------------------------------------------------------------------------
     proofs = getattr(mod, 'PROOFS', None)
+    if hasattr(mod, 'proofs_for'):
+        proofs = mod.proofs_for(tier)       # a module may keep its slowest lemmas for the thorough tier
     if proofs is None and reg is not None:
         proofs = list(reg.by_name.values())
+    todo = []
     for c in proofs or []:
         if only and only not in c.name:
             continue
         try:
-            rep = vc.verify_contract(reg, c, timeout_ms=timeout_ms)
-        except KeyError as e:
+            extract.load(c.module).find(c.qualname)
+        except (KeyError, OSError) as e:
             # the function under contract no longer exists: the contract cannot be checked
             undecided.append(f'{c.name}: target missing ({e})')
             continue
-        reports.append(rep)
+        todo.append(c)
+    try:
+        reports = vc.verify_contracts(reg, todo, timeout_ms=timeout_ms) if todo else []
+    except KeyError as e:
+        undecided.append(f'target missing ({e})')
+        reports = []
+    for rep in reports:
         for u in rep.unsupported:
-            undecided.append(f'{c.name}: {u}')
+            undecided.append(f'{rep.contract}: {u}')
     for fn in getattr(mod, 'STATIC', []):
         if only and only not in fn.__name__:
             continue
@@ -430,6 +450,8 @@ def write_lock(props: list[str], repo: str) -> None:
         reg = getattr(mod, 'REG', None)
         names = set()
         proofs = getattr(mod, 'PROOFS', None)
+        if hasattr(mod, 'proofs_for'):
+            proofs = mod.proofs_for('quick')
         if proofs is None and reg is not None:
             proofs = list(reg.by_name.values())
         for c in proofs or []:
